@@ -37,7 +37,9 @@ func ExtractTypeInfo(t types.Type) *TypeInfo {
 
 	typeName := named.Obj().Name()
 	pkg := named.Obj().Pkg()
-	if pkg == nil {
+	// only package-level types carry annotations: a function-local type that merely
+	// shares the name of an annotated type is a different type
+	if pkg == nil || (named.Obj().Parent() != nil && named.Obj().Parent() != pkg.Scope()) {
 		return nil
 	}
 
